@@ -7,8 +7,8 @@ from vlib import chainspace as cs
 LEVEL = "exploration"
 RULE = ("Bounded-exhaustive: every sequence of length 0..N over link kinds {await coroutine, await types.coroutine "
         "generator, __await__ returning a coroutine wrapper, __await__ running a delegating generator, asend(None), asend(<an async generator object>), __anext__, "
-        "async for, athrow, aclose} x terminal {trap, plain-iterator leaf, falsy future-like leaf that is its own iterator} x outer kind {coroutine, generator-based "
-        "coroutine} x {links suspend first themselves, or not}; plus pure yield-from generator chains, plus nine deep chains (60-150 links, plain and mixed); every suspension "
+        "async for, athrow, aclose} x terminal {trap, plain-iterator leaf, falsy future-like leaf that is its own iterator, future-like leaf that speaks the generator protocol (send/throw/close) without being a generator} x outer kind {coroutine, generator-based "
+        "coroutine} x {links suspend first themselves, or not}; plus pure yield-from generator chains, plus ten deep chains (60-150 links, plain and mixed); every suspension "
         "point k of each (chain rebuilt and advanced k steps), plus the exhausted state. Oracle: frames and line numbers of "
         "the traceback of an exception thrown into the root right after extraction. evaluations = (chain, position) "
         "observations; distinct_nontrivial = distinct chain specs with at least one link.")
@@ -95,7 +95,7 @@ def unwind_oracle(root):
     me = sys._getframe(0)
 
     def prof(frame, event, arg):
-        if event == "return" and frame is not me:
+        if event == "return" and frame is not me and frame.f_code not in cs.LEAF_CODES:
             events.append((frame, frame.f_lineno))
     exp_tb = None
     ok = False
